@@ -627,6 +627,24 @@ def execute(scenario, chooser):
                     if w > sim.now:
                         sim.sleep(w - sim.now)
                     sim.count('rerun_as_old_clock_thread_ends')
+                    # ... and that thread may be slow to die: hold it at the
+                    # very end of its body until the new run has started its
+                    # clock (a legal schedule)
+                    st['linger'] = {'names': {t.name for t in cl},
+                                    'until': len(st.setdefault(
+                                        'clock_starts', [])) + 1}
+                    sim.fairness = 60
+
+                    def linger_watch(s, cur):
+                        lg = st.get('linger')
+                        if lg is None or cur is None:
+                            return
+                        if cur.name in lg['names'] and \
+                                tuple(cur.tag or ()) == ('thread.exiting',) \
+                                and cur.name not in s.parked:
+                            s.parked[cur.name] = lambda: (
+                                len(st['clock_starts']) < lg['until'])
+                    sim.watch.append(linger_watch)
             st['rerun_job'] = fj.jname
             st['rerun_mark'] = sim.next_event()
             jc.add_job(fj, fj.jname)
@@ -646,6 +664,8 @@ def execute(scenario, chooser):
                     me.role == 'job' and me.name not in armed:
                 armed[me.name] = core.current().evno
             orig(self)
+            st.setdefault('clock_starts', []).append(
+                me.name if me is not None else '?')
         return start
 
     start = sc['start']
